@@ -477,3 +477,12 @@ def s9(ctx):
 
 
 RULES.append(s9)
+
+
+@rule("S10", doc="the progress measure and the matchers range over every live class: EGraph::ids() is exactly the set of leaders (C04.M11) — a class missing from it contributes neither matches nor progress, and 'saturated' is reported while a rule still applies")
+def s10_m11(ctx):
+    from . import c04
+    c04.m11(ctx)
+
+
+RULES.append(s10_m11)
